@@ -101,6 +101,7 @@ int main(int argc, char** argv) {
         if (a.prop == "C07") { return epo::run_c07(a, b, record, st); }
         if (a.prop == "C11") { return run_ddl_leak(a, b, record, st); }
 #endif
+        if (a.prop == "C09" && a.extra == "lockparent") { return misc::run_lockparent(a, b, record, st); }
         if (a.prop == "C14") { return misc::run_sessions(a, b, record, st); }
         if (a.prop == "C17") { return misc::run_version(a, b, record, st); }
         if (a.prop == "C13") { return misc::run_ddl(a, b, record, st); }
